@@ -41,6 +41,9 @@ type Channel struct {
 	// the read lock.
 	closeCh   chan struct{}
 	closeOnce sync.Once
+	// closeLock serializes calls of Close - the logout respectively the
+	// teardown must only be communicated once.
+	closeLock sync.Mutex
 	// sendLock serializes the transmission of packets.
 	sendLock sync.Mutex
 
@@ -165,6 +168,12 @@ func (tdsChan *Channel) reset() {
 // If an error is returned it is a *multierror.Error with all errors.
 func (tdsChan *Channel) Close() error {
 	var me error
+
+	// Only one goroutine closes the channel, e.g. if the channel is
+	// closed while the connection is being closed. Every other caller
+	// waits and is told that the channel is closed.
+	tdsChan.closeLock.Lock()
+	defer tdsChan.closeLock.Unlock()
 
 	tdsChan.RLock()
 	closed := tdsChan.closed
